@@ -294,7 +294,7 @@ void h_tensor_contractions(void)
 }
 
 /* Column / row statistics against their definitions on exact instances (IEEE mode, cells restricted to the integers
- * 0..3, row/column counts 1, 2 or 4 and n-1 = 1): every sum, difference, product and quotient of the definition is then
+ * 0..3, row/column counts 1 or 2 and n-1 = 1): every sum, difference, product and quotient of the definition is then
  * exactly representable, so every mathematically equivalent evaluation (other order, one-pass formulas, reciprocal
  * multiplication) returns the same double and exact equality is the right obligation.  What is decided: which cells enter
  * which statistic, the counts and the denominators (n, n-1); sqrt is an uninterpreted function (stubs/usqrt_stub.c);
